@@ -2022,6 +2022,27 @@ class Interp:
                 return self.models.native_delitem(self, o.native, idx)
         if isinstance(o, BA):
             return self.models.native_delitem(self, o, idx)
+        if isinstance(o, K) and (isinstance(o.v, bytearray) or type(o.v).__name__ == 'SymBuf'):
+            # del buf[a:b] / del buf[i] on a bytearray (concrete or with symbolic content)
+            n_ = len(o.v)
+            if isinstance(idx, tuple):
+                lo, hi = idx[1], idx[2]
+                if not all(isinstance(x, K) and (x.v is None or isinstance(x.v, int)) for x in (lo, hi)):
+                    raise Fail('del of a symbolic range of a bytearray')
+                a_, b_, _ = slice(lo.v, hi.v).indices(n_)
+            elif isinstance(idx, K) and isinstance(idx.v, int):
+                a_ = idx.v + n_ if idx.v < 0 else idx.v
+                if not 0 <= a_ < n_:
+                    raise RaiseEx('IndexError', 'bytearray index out of range')
+                b_ = a_ + 1
+            else:
+                raise Fail('del of a symbolic index of a bytearray')
+            if isinstance(o.v, bytearray):
+                del o.v[a_:max(a_, b_)]
+            else:
+                from .rope import buf_store
+                buf_store(self, o, a_, max(a_, b_), K(b''))
+            return
         if isinstance(o, DictV) and not isinstance(idx, tuple):
             k = self.dkey(idx)
             if k in o.d:
